@@ -301,3 +301,130 @@ theorem mergeAll_all (P : Str → Prop) (cfg : Cfg) (hok : ∀ c l r, cfg.ok c l
   exact h1 r hr
 
 end OllamaVerif.Tok
+
+namespace OllamaVerif.Tok
+
+/-! ## BPE encode/decode -/
+
+/-- `Values[values[s]] = s` (the lookup map is built from `Values`) -/
+def Vocab.Wf (V : Vocab) : Prop := ∀ t i, V.tokId t = some i → V.tokStr i = t ∧ i < V.size
+
+/-- the per-byte guard of the BPE round trip -/
+def byteOk (pinned : Bool) (b : Nat) : Prop := b < 256 ∧ b ≠ 0 ∧ (pinned = true → b ≠ 0x7e)
+
+/-- "the vocabulary covers every byte" (every remapped byte that can occur is a token) -/
+def Vocab.CoversBytes (V : Vocab) (pinned : Bool) : Prop :=
+  ∀ b, byteOk pinned b → (V.tokId [encByte pinned b]).isSome = true
+
+theorem bpeDecode_append (V : Vocab) (a b : List Nat) :
+    bpeDecode V (a ++ b) = bpeDecode V a ++ bpeDecode V b := by
+  simp [bpeDecode]
+
+theorem bpeDecode_parts (V : Vocab) (hwf : V.Wf) (ps : List Part)
+    (hall : ∀ p ∈ ps, (V.tokId p.runes).isSome = true) :
+    bpeDecode V (ps.filterMap fun p => V.tokId p.runes) = decodeRunes (concatParts ps) := by
+  induction ps with
+  | nil => rfl
+  | cons p ps ih =>
+    have hp := hall p (by simp)
+    obtain ⟨i, hi⟩ := Option.isSome_iff_exists.mp hp
+    have hs := (hwf _ _ hi).1
+    have : bpeDecode V ((p :: ps).filterMap fun p => V.tokId p.runes)
+        = decodeRunes (V.tokStr i) ++ bpeDecode V (ps.filterMap fun p => V.tokId p.runes) := by
+      simp [bpeDecode, List.filterMap_cons, hi]
+    rw [this, ih (fun q hq => hall q (List.mem_cons_of_mem _ hq)), hs]
+    simp [concatParts, decodeRunes_append]
+
+theorem bpeCfg_ok (V : Vocab) (c : Cand) (l r : Str) (h : (bpeCfg V).ok c l r = true) :
+    (V.tokId (l ++ r)).isSome = true := by
+  simp only [bpeCfg, Bool.and_eq_true, beq_iff_eq] at h
+  rw [h.1]; exact h.2
+
+theorem bpePiece_roundtrip (pinned : Bool) (V : Vocab) (hwf : V.Wf) (hcov : V.CoversBytes pinned)
+    (piece : Str) (hb : ∀ b ∈ piece, byteOk pinned b) :
+    bpeDecode V (bpePiece pinned V piece) = piece := by
+  have hdec : decodeRunes (piece.map (encByte pinned)) = piece := decodeRunes_map_enc pinned piece hb
+  unfold bpePiece
+  simp only
+  split
+  · rename_i id hid
+    have := (hwf _ _ hid).1
+    simp [bpeDecode, this, hdec]
+  · rw [bpeDecode_parts V hwf, mergeAll_concat, hdec]
+    apply mergeAll_all (fun t => (V.tokId t).isSome = true) _ (bpeCfg_ok V)
+    intro r hr
+    simp only [List.mem_map] at hr
+    obtain ⟨b, hbm, rfl⟩ := hr
+    exact hcov b (hb b hbm)
+
+theorem bpePieces_roundtrip (pinned : Bool) (V : Vocab) (hwf : V.Wf) (hcov : V.CoversBytes pinned)
+    (pieces : List Str) (hb : ∀ piece ∈ pieces, ∀ b ∈ piece, byteOk pinned b) :
+    bpeDecode V (pieces.flatMap (bpePiece pinned V)) = pieces.flatten := by
+  induction pieces with
+  | nil => rfl
+  | cons p ps ih =>
+    simp only [List.flatMap_cons, List.flatten_cons, bpeDecode_append]
+    rw [bpePiece_roundtrip pinned V hwf hcov p (hb p (by simp)),
+        ih (fun q hq => hb q (List.mem_cons_of_mem _ hq))]
+
+theorem bpeFrags_roundtrip (pinned : Bool) (V : Vocab) (split : Str → List Str) (hwf : V.Wf)
+    (hcov : V.CoversBytes pinned) (frs : List Frag)
+    (htext : ∀ t, Frag.text t ∈ frs → (split t).flatten = t ∧ ∀ b ∈ t, byteOk pinned b)
+    (hsp : ∀ q, Frag.special q ∈ frs → decodeRunes (V.tokStr q.id) = q.lit) :
+    bpeDecode V (frs.flatMap (bpeFrag pinned V split)) = fragsLit frs := by
+  induction frs with
+  | nil => rfl
+  | cons fr frs ih =>
+    simp only [List.flatMap_cons, bpeDecode_append]
+    rw [ih (fun t ht => htext t (List.mem_cons_of_mem _ ht)) (fun q hq => hsp q (List.mem_cons_of_mem _ hq))]
+    have : fragsLit (fr :: frs) = fr.lit ++ fragsLit frs := by simp [fragsLit]
+    rw [this]
+    congr 1
+    cases fr with
+    | text t =>
+      obtain ⟨h1, h2⟩ := htext t (by simp)
+      simp only [bpeFrag, Frag.lit]
+      rw [bpePieces_roundtrip pinned V hwf hcov, h1]
+      intro piece hp b hbp
+      apply h2
+      rw [← h1]
+      exact List.mem_flatten.mpr ⟨piece, hp, hbp⟩
+    | special q =>
+      simp only [bpeFrag, Frag.lit]
+      have := hsp q (by simp)
+      simp [bpeDecode, this]
+
+theorem mem_fragsLit_of_text (frs : List Frag) (t : Str) (h : Frag.text t ∈ frs) :
+    ∀ b ∈ t, b ∈ fragsLit frs := by
+  intro b hb
+  simp only [fragsLit, List.mem_flatten, List.mem_map]
+  exact ⟨t, ⟨Frag.text t, h, rfl⟩, hb⟩
+
+/-- every id produced for a piece is the id of some vocabulary string -/
+theorem bpePiece_ids (pinned : Bool) (V : Vocab) (piece : Str) :
+    ∀ id ∈ bpePiece pinned V piece, ∃ t, V.tokId t = some id := by
+  intro id hid
+  unfold bpePiece at hid
+  simp only at hid
+  split at hid
+  · rename_i i hi
+    simp at hid; subst hid
+    exact ⟨_, hi⟩
+  · simp only [List.mem_filterMap] at hid
+    obtain ⟨p, _, hp⟩ := hid
+    exact ⟨_, hp⟩
+
+theorem mem_addSpecials (c : AddCfg) (ids : List Nat) :
+    ∀ id ∈ addSpecials c ids, id ∈ ids ∨ (c.addSpecial = true ∧ c.addBOS = true ∧ id = c.bos) ∨
+      (c.addSpecial = true ∧ c.addEOS = true ∧ id = c.eos) := by
+  intro id hid
+  unfold addSpecials at hid
+  split at hid
+  · rename_i hc
+    simp only [Bool.and_eq_true] at hc
+    simp only at hid
+    by_cases hb : c.addBOS = true <;> by_cases he : c.addEOS = true <;>
+      simp [hb, he] at hid <;> simp [hc.1, hb, he] <;> grind
+  · exact Or.inl hid
+
+end OllamaVerif.Tok
